@@ -45,6 +45,10 @@ func NewNames() *Names {
 		rev: map[string]string{}, txh: map[string]string{}}
 	n.rev[strings.ToLower(mhubtypes.TempAddress.String())] = "tmp"
 	n.rev["0x0000000000000000000000000000000000000000"] = "zero"
+	// the cold storage addresses hard-coded in keeper.GetColdStorageAddr
+	n.rev["0x7072558b2b91e62dbed78e9a3453e5c9e01fec5e"] = "cold-minter"
+	n.rev["0x58bd8047f441b9d511aee9c581aeb1cab4fe0b6d"] = "cold-ethereum"
+	n.rev["0xbcc2fa395c6198096855c932f4087cf1377d28ee"] = "cold-bsc"
 	return n
 }
 
